@@ -21,6 +21,8 @@ pub fn rva_bin(profile: &str) -> PathBuf {
 pub enum Entry {
     File(String, Vec<u8>),
     Dir(String),
+    /// (name, target) - a symbolic link
+    Link(String, String),
 }
 
 #[derive(Clone, Debug)]
@@ -71,6 +73,13 @@ pub fn materialize(c: &CliCase) -> PathBuf {
             }
             Entry::Dir(name) => {
                 let _ = std::fs::create_dir_all(d.join(name));
+            }
+            Entry::Link(name, target) => {
+                let p = d.join(name);
+                if let Some(parent) = p.parent() {
+                    let _ = std::fs::create_dir_all(parent);
+                }
+                let _ = std::os::unix::fs::symlink(target, p);
             }
         }
     }
